@@ -164,7 +164,7 @@ def _run(mod, args, timer) -> int:
         if entry is None:
             # the module recognised a defect model that is not (or no longer) listed: a violation
             ex = findings[fid]["example"]
-            violations.append({"signature": f"unlisted-finding:{fid}", "run_seed": ex.get("run_seed", 0),
+            violations.append({"signature": f"finding:{fid}", "run_seed": ex.get("run_seed", 0),
                                "scenario": ex.get("scenario", {})})
         else:
             print(f"KNOWN-FINDING: property={mod.PROP} {entry['what']} (reproduced {findings[fid]['count']}x this run)")
